@@ -53,7 +53,7 @@ LayoutDescs ==
   [steps : {0, 1, 2}, rules : {"none", "simple", "match_full", "match_nosrc", "match_nodst", "match_bare", "all"},
    thr : {"zero", "one", "max"}, keys : {"none", "ed", "rsa", "ec", "all"}, insp : {0, 1},
    str : IF Tier = "quick" THEN {<< >>, <<"Q">>, <<"U">>} ELSE StrClasses,
-   expires : {"epoch", "now", "far"}, sigs : {0, 1}]
+   expires : {"epoch", "now", "far", "yearend"}, sigs : {0, 1}]
 
 \* ---- attestation descriptors
 TsForms == {"none", "Z", "offset", "frac"}
